@@ -1,4 +1,4 @@
 # hook commits in /repo (build tag `verif`), listed in MANIFEST.hooks.source_commits
-HOOK_COMMITS = []
+HOOK_COMMITS = ["bd432b9 verif hook: count keystore signing operations (build tag verif)", "0d7ce94 verif hook: scheduler yield points in event.Feed (build tag verif)"]
 # reasons for properties that are not claimed (kept current)
 NOT_BUILT = {}
